@@ -175,6 +175,10 @@ pub use scanner_mode::ScannerMode;
 mod span;
 pub use span::Span;
 
+/// Read-only observation hooks for external verification harnesses.
+#[cfg(feature = "verif")]
+pub mod verif;
+
 /// Module that provides a WithPositions type
 mod with_positions;
 pub use with_positions::{MatchExtIterator, WithPositions};
